@@ -232,8 +232,9 @@ func yamlName(tag reflect.StructTag, def string) string {
 func init() { register("C13", checkC13) }
 
 func checkC13(c *Ctx, r *Report) {
-	r.Rules = []string{"S-get shape of Config.Get (two merges, override option only, lookup by the requested format)", "D1 content filter table", "V1 override keys validated against the packager registry", "A1 merge-aliasing hazard walk", "documented overridable keys are overridable fields"}
+	r.Rules = []string{"S-get shape of Config.Get (two merges, override option only, lookup by the requested format)", "D1 content filter table", "V1 override keys validated against the packager registry", "A1 merge-aliasing hazard walk", "documented overridable keys are overridable fields", "S-get the override block is consumed by the merge only"}
 	r.Explanation = "Shape and table rules over go/ssa and go/types. (S-get) Config.Get performs exactly two mergo.Merge calls: the base Info (by value) into a freshly allocated Info, and the override block obtained by a map lookup whose key is the requested format — nothing else — into that Info's overridable part; both with exactly the option WithOverride (so lists are replaced wholesale and only non-empty values override); the path without an override block returns the base copy. (D1) the content filter in Get is evaluated for every (entry tag, requested format) cell and keeps an entry iff its tag is empty or the requested format. (V1) Config.Validate passes every key of the overrides table to the packager registry lookup and returns its error; the registry lookup fails for an unknown format. (A1) the type tree of Overridables is walked for pointer-kind fields, through which mergo would write into the base configuration, unless Get re-points them to fresh copies before the override merge. The documented '(overridable)' keys are fields of Overridables. mergo's reflective merge itself is trusted."
+	r.Explanation += " The override block is consumed by the merge alone: no field of the looked-up block is read directly in Config.Get or the helpers it hands the fresh Info to."
 	r.Assumptions = []string{
 		"mergo v1.0.1 with WithOverride replaces a destination value by a non-empty source value, slices wholesale, nested structs field by field, and re-makes maps",
 	}
